@@ -12,6 +12,7 @@ CONSTANTS
   MaxBad = %(bad)d
   MaxDeliver = %(deliver)d
   FixFailedReorg = %(fix)s
+  WithProducers = %(prod)s
 VIEW view
 %(inv)s
 %(extra)s
@@ -24,7 +25,8 @@ INV_FIXED = INV_ASIS + " MostWork NeverStranded"
 
 def cfg(txs, blocks, tpb, bad, deliver, fix=False, inv="", extra=""):
     return CFG % dict(txs=", ".join('"%s"' % t for t in txs), blocks=blocks, tpb=tpb, bad=bad, deliver=deliver,
-                      fix="TRUE" if fix else "FALSE", inv=inv, extra=extra)
+                      fix="TRUE" if fix else "FALSE", inv=inv, extra=extra,
+                      prod="TRUE" if any(t.startswith("R") for t in txs) else "FALSE")
 
 
 def reorg_fix_expected():
